@@ -131,7 +131,7 @@ def findings(lab: Lab, q: str, n: int, full: bool, repo: bool):
     M = lab.prj.cls("codelimit.common.Measurement:Measurement")
     for k in range(n):
         m = Sym(f"m{k}", _cls=M, unit_name=f"fn{k:02d}x", value=100 - k, start=Sym("loc", line=1000 + k, column=2000 + k), end=Sym("loc", line=3000 + k, column=4000 + k))
-        units.append(Sym(f"unit{k}", file=f"file{k:02d}x.py", measurement=m))
+        units.append((f"file{k:02d}x.py", m))
     asked = []
 
     def hook(it, kind, f, args, kwargs, node, cur):
@@ -142,6 +142,11 @@ def findings(lab: Lab, q: str, n: int, full: bool, repo: bool):
         return NotImplemented
     it, run = lab.interp(hook)
     fn = lab.prj.func(q)
+    try:
+        RU = lab.prj.cls("codelimit.common.report.ReportUnit:ReportUnit")
+        units = [it.construct(RU, [f, m], {}, None, fn) for f, m in units]      # instances of the repo's own class (methods, properties)
+    except Exception:
+        units = [Sym(f"unit{k}", file=f, measurement=m) for k, (f, m) in enumerate(units)]
     rp = None
     if repo:
         rp = Sym("repo")
